@@ -13,7 +13,12 @@ import (
 	"os"
 	"sort"
 
+	"github.com/bronlabs/bron-crypto/pkg/base/datastructures/hashmap"
 	"github.com/bronlabs/bron-crypto/pkg/base/serde"
+	"github.com/bronlabs/bron-crypto/pkg/mpc/dkg/canetti"
+	"github.com/bronlabs/bron-crypto/pkg/mpc/dkg/gennaro"
+	"github.com/bronlabs/bron-crypto/pkg/mpc/signatures/schnorr/lindell22/signing"
+	"github.com/bronlabs/bron-crypto/pkg/proofs/sigma/compiler/fiatshamir"
 	"github.com/bronlabs/bron-crypto/pkg/mpc/dkg/trusteddealer"
 	"github.com/bronlabs/bron-crypto/pkg/mpc/redistribute"
 	"github.com/bronlabs/bron-crypto/pkg/mpc/sharing/accessstructures"
@@ -447,6 +452,287 @@ func doMix(cur, old *epoch, s []ID, useOld map[ID]bool) {
 	w.Emit(ev)
 }
 
+// doDKG runs a real Gennaro or Canetti DKG (all parties honest) and logs every dealing column and share on the wire.
+func doDKG(which string, pol *ad.Policy) *epoch {
+	as, err := pol.Build()
+	if err != nil {
+		w.Emit(map[string]any{"a": "dealRefused", "pol": pol, "err": tr.ErrClass(err)})
+		return nil
+	}
+	hs := holders(pol)
+	ctxs, err := ad.SetupSessions(hs, func(ID) io.Reader { return reader() })
+	if err != nil {
+		panic(err)
+	}
+	ps := []proto.Party{}
+	outOf := map[ID]func() *ad.Shard{}
+	for _, id := range hs {
+		switch which {
+		case "gennaro":
+			g, err := ad.NewGennaroParty(ctxs[id], as, fiatshamir.Name, reader())
+			if err != nil {
+				w.Emit(map[string]any{"a": "dealRefused", "pol": pol, "err": tr.ErrClass(err)})
+				return nil
+			}
+			ps = append(ps, g)
+			outOf[id] = func() *ad.Shard { return g.Out }
+		case "canetti":
+			c, err := ad.NewCanettiParty(ctxs[id], as, reader())
+			if err != nil {
+				w.Emit(map[string]any{"a": "dealRefused", "pol": pol, "err": tr.ErrClass(err)})
+				return nil
+			}
+			ps = append(ps, c)
+			outOf[id] = func() *ad.Shard { return c.Out }
+		}
+	}
+	cols := map[string]any{}  // i -> dealing column (Feldman verification vector logs)
+	sub := map[string]any{}   // i -> j -> secret share vector on the wire
+	blind := map[string]any{} // i -> j -> blinding share vector (Gennaro)
+	pvv := map[string]any{}   // i -> Pedersen verification vector logs (Gennaro)
+	for _, i := range hs {
+		sub[key(i)] = map[string]any{}
+		blind[key(i)] = map[string]any{}
+	}
+	obs := func(round int, from, to ID, kind string, data []byte) {
+		switch which {
+		case "gennaro":
+			switch {
+			case round == 1 && kind == "b":
+				if m, err := serde.UnmarshalCBOR[*gennaro.Round1Broadcast[ad.G, ad.S]](data); err == nil {
+					l := []uint64{}
+					for e := range m.PedersenVerificationVector.Value().Iter() {
+						l = append(l, e.Log())
+					}
+					pvv[key(from)] = l
+				}
+			case round == 1 && kind == "u":
+				if m, err := serde.UnmarshalCBOR[*gennaro.Round1Unicast[ad.G, ad.S]](data); err == nil {
+					sub[key(from)].(map[string]any)[key(to)] = tr.Ints(m.Share.Value())
+					b := []uint64{}
+					for _, x := range m.Share.Blinding() {
+						b = append(b, x.Value().Int())
+					}
+					blind[key(from)].(map[string]any)[key(to)] = b
+				}
+			case round == 2 && kind == "b":
+				if m, err := serde.UnmarshalCBOR[*gennaro.Round2Broadcast[ad.G, ad.S]](data); err == nil {
+					cols[key(from)] = ad.VVJ(m.FeldmanVerificationVector)
+				}
+			}
+		case "canetti":
+			switch {
+			case round == 2 && kind == "b":
+				if m, err := serde.UnmarshalCBOR[*canetti.Round2Broadcast[ad.G, ad.S]](data); err == nil {
+					cols[key(from)] = ad.VVJ(m.Message.X)
+				}
+			case round == 2 && kind == "u":
+				if m, err := serde.UnmarshalCBOR[*canetti.Round2P2P[ad.G, ad.S]](data); err == nil {
+					sub[key(from)].(map[string]any)[key(to)] = ad.ShareJ(m.Share)
+				}
+			}
+		}
+	}
+	res := proto.Run(ps, nil, obs)
+	shards := map[ID]*ad.Shard{}
+	for _, id := range hs {
+		shards[id] = outOf[id]()
+	}
+	ok := len(res.Rejects) == 0
+	ev := map[string]any{"a": "dkg", "proto": which, "pol": pol, "cols": cols, "sub": sub, "ok": ok, "rejects": rejectsJ(res.Rejects), "shards": shardsJ(shards), "certs": []ad.Cert{}}
+	if which == "gennaro" {
+		ev["blind"], ev["pvv"] = blind, pvv
+	}
+	if ok {
+		M, lab := mspInts(anyShard(shards))
+		ev["certs"] = ad.AllCerts("cur", M, lab)
+		if which == "gennaro" {
+			// eta = log_g(h), the second Pedersen generator: solved from the first usable equation M_j.pvv_i = s_ij + eta t_ij and
+			// only CHECKED (for every i, j, row) by the specification
+			eta := uint64(0)
+			found := false
+			for _, i := range hs {
+				for _, j := range hs {
+					if i == j || found {
+						continue
+					}
+					sv := sub[key(i)].(map[string]any)[key(j)].([]uint64)
+					tv := blind[key(i)].(map[string]any)[key(j)].([]uint64)
+					pv := pvv[key(i)].([]uint64)
+					rowIdx := 0
+					for k, h := range lab {
+						if ID(h) != j {
+							continue
+						}
+						lhs := uint64(0)
+						for c := range M[k] {
+							lhs = (lhs + M[k][c]*pv[c]) % q
+						}
+						if tv[rowIdx] != 0 {
+							d := (lhs + q - sv[rowIdx]) % q
+							eta = d * powmod(tv[rowIdx], q-2) % q
+							found = true
+							break
+						}
+						rowIdx++
+					}
+				}
+			}
+			ev["eta"], ev["etaKnown"] = eta, found
+		}
+	}
+	w.Emit(ev)
+	if !ok {
+		return nil
+	}
+	return &epoch{pol: pol, as: as, shards: shards}
+}
+
+func powmod(b, e uint64) uint64 {
+	r := uint64(1)
+	b %= q
+	for e > 0 {
+		if e&1 == 1 {
+			r = r * b % q
+		}
+		b = b * b % q
+		e >>= 1
+	}
+	return r
+}
+
+// doSign runs Lindell22 threshold Schnorr (generic Schnorr variant, SHA-256) with quorum Q on the current epoch.
+func doSign(ep *epoch, Q []ID, msg []byte) {
+	cm, cl := mspInts(anyShard(ep.shards))
+	cert := ad.SpanCert("cur", cm, cl, ad.IDsU(Q))
+	base := map[string]any{"a": "sign", "Q": ad.IDsU(Q), "msg": proto.Tok(msg), "certs": []ad.Cert{cert}}
+	if len(Q) < 2 {
+		base["stage"] = "tooSmall"
+		w.Emit(base)
+		return
+	}
+	ctxs, err := ad.SetupSessions(Q, func(ID) io.Reader { return reader() })
+	if err != nil {
+		panic(err)
+	}
+	parties := map[ID]*ad.L22Party{}
+	ps := []proto.Party{}
+	for _, id := range Q {
+		ss, err := ad.ToSchnorrShard(ep.shards[id])
+		if err != nil {
+			base["stage"], base["err"] = "shard", tr.ErrClass(err)
+			w.Emit(base)
+			return
+		}
+		p, err := ad.NewL22Party(ctxs[id], ss, fiatshamir.Name, msg, reader())
+		if err != nil {
+			base["stage"], base["err"] = "constructor", tr.ErrClass(err)
+			w.Emit(base)
+			return
+		}
+		parties[id] = p
+		ps = append(ps, p)
+	}
+	un, _ := unanimity.NewUnanimityAccessStructure(ad.IDSet(Q...))
+	zsch, err := feldman.NewScheme(toy.NewGroup(), un)
+	if err != nil {
+		panic(err)
+	}
+	mu := ad.MSPJ(zsch.MSP())
+	cS, cU := map[string]any{}, map[string]any{}
+	for _, i := range Q {
+		c, err := ep.shards[i].MSP().ReconstructionCoefficients(i, Q...)
+		if err != nil {
+			panic(err)
+		}
+		cS[key(i)] = tr.Ints(c)
+		c2, err := zsch.MSP().ReconstructionCoefficients(i, Q...)
+		if err != nil {
+			panic(err)
+		}
+		cU[key(i)] = tr.Ints(c2)
+	}
+	z := map[string]any{}
+	k := map[string]any{}
+	obs := func(round int, from, to ID, kind string, data []byte) {
+		switch {
+		case round == 1 && kind == "b":
+			if m, err := serde.UnmarshalCBOR[*signing.Round1Broadcast[ad.G, ad.S, ad.Msg]](data); err == nil && m.ZeroR1 != nil {
+				z[key(from)] = ad.VVJ(m.ZeroR1.VerificationVector)
+			}
+		case round == 2 && kind == "b":
+			if m, err := serde.UnmarshalCBOR[*signing.Round2Broadcast[ad.G, ad.S, ad.Msg]](data); err == nil && m.BigR != nil {
+				k[key(from)] = m.BigR.X.Log()
+			}
+		}
+	}
+	res := proto.Run(ps, nil, obs)
+	base["stage"] = "run"
+	base["MU"], base["labU"] = mu["M"], mu["lab"]
+	base["cS"], base["cU"], base["z"], base["k"] = cS, cU, z, k
+	base["rejects"] = rejectsJ(res.Rejects)
+	base["ok"] = len(res.Rejects) == 0
+	psigs := map[string]any{}
+	base["psig"] = psigs
+	base["sigs"] = []any{}
+	if len(res.Rejects) == 0 {
+		sch, err := ad.NewSchnorrScheme(reader())
+		if err != nil {
+			panic(err)
+		}
+		pm := hashmap.NewComparable[ID, *ad.PSig]()
+		for _, id := range Q {
+			ps := parties[id].PSig
+			psigs[key(id)] = map[string]any{"R": ps.Sig.R.Log(), "S": ps.Sig.S.Int(), "E": ps.Sig.E.Int()}
+			pm.Put(id, ps)
+		}
+		base["e"] = parties[Q[0]].PSig.Sig.E.Int()
+		first, _ := ad.ToSchnorrShard(ep.shards[Q[0]])
+		sigs := []any{}
+		// a plain aggregator and the cosigning aggregator of every signer must output the same signature
+		aggs := []string{"plain"}
+		for range Q {
+			aggs = append(aggs, "cosigning")
+		}
+		for ai, kind := range aggs {
+			var sig *ad.Sig
+			var aerr error
+			if kind == "plain" {
+				agg, err := signing.NewAggregator(first.PublicKeyMaterial(), sch)
+				if err != nil {
+					panic(err)
+				}
+				sig, aerr = agg.Aggregate(pm.Freeze(), msg)
+			} else {
+				agg, err := signing.NewCosigningAggregator(parties[Q[ai-1]].C, first.PublicKeyMaterial(), sch)
+				if err != nil {
+					panic(err)
+				}
+				sig, aerr = agg.Aggregate(pm.Freeze(), msg)
+			}
+			rec := map[string]any{"agg": kind, "ok": aerr == nil, "err": tr.ErrClass(aerr)}
+			if aerr == nil {
+				rec["R"], rec["S"], rec["E"] = sig.R.Log(), sig.S.Int(), sig.E.Int()
+				vf, err := sch.Verifier()
+				if err != nil {
+					panic(err)
+				}
+				rec["verifyLib"] = vf.Verify(sig, first.PublicKey(), msg) == nil
+				other := append([]byte("other:"), msg...)
+				rec["verifyOther"] = vf.Verify(sig, first.PublicKey(), other) == nil
+				eo, err := sch.Variant().ComputeChallenge(sig.R, first.PublicKey().Value(), other)
+				if err != nil {
+					panic(err)
+				}
+				rec["eOther"] = eo.Int()
+			}
+			sigs = append(sigs, rec)
+		}
+		base["sigs"] = sigs
+	}
+	w.Emit(base)
+}
+
 func samePolicy(a, b *ad.Policy) bool { return fmt.Sprint(*a) == fmt.Sprint(*b) && fmt.Sprint(a.Tree) == fmt.Sprint(b.Tree) }
 
 func main() {
@@ -470,13 +756,30 @@ func main() {
 		ids := pickIDs(np)
 		var ep *epoch
 		for ep == nil {
-			ep = doDeal(randPolicy(ids, *kinds))
+			switch rng.IntN(3) {
+			case 0:
+				ep = doDeal(randPolicy(ids, *kinds))
+			case 1:
+				ep = doDKG("gennaro", randPolicy(ids, *kinds))
+			case 2:
+				ep = doDKG("canetti", randPolicy(ids, *kinds))
+			}
 		}
 		var older *epoch
 		for op := 0; op < *maxOps; op++ {
 			hs := holders(ep.pol)
 			qual, unqual := qualifiedSets(ep.as, hs)
-			switch c := rng.IntN(6); {
+			switch c := rng.IntN(8); {
+			case c >= 6: // sign with a qualified quorum (sometimes an unqualified one: must be refused)
+				Q := qual[rng.IntN(len(qual))]
+				if rng.IntN(5) == 0 && len(unqual) > 0 {
+					Q = unqual[rng.IntN(len(unqual))]
+				}
+				msg := []byte(fmt.Sprintf("message-%d-%d", h, op))
+				if rng.IntN(6) == 0 {
+					msg = []byte{}
+				}
+				doSign(ep, Q, msg)
 			case c == 0: // refresh: same structure, all holders or a qualified subset drive
 				prev := qual[rng.IntN(len(qual))]
 				if rng.IntN(2) == 0 {
